@@ -40,6 +40,9 @@ def run(ctx):
             cov['over_demo_storage'] = len(rd)
             res += rd
         if kind == 'file':
+            # a second writable open attempt in the middle of each transaction (large records: the .tmp file is in use)
+            res += S.replay_all(ctx, files[2::4], kind, c2, opts={'second_open': True, 'pad': 9000}, tag='open2')
+        if kind == 'file':
             # a reader racing with the vote (sparse observation, records spread over several read buffers)
             res += S.replay_all(ctx, files[1::2], kind, c2, opts={'sparse': True, 'pad': 3000}, tag='race')
         if kind == 'file':
